@@ -240,7 +240,8 @@ func c03r5(c *Ctx) {
 		}
 		c.check(okG, R, f.Key+": Clear(src) guarded by Src != Dst", cl.Pos(), "guarded", "a source file can be removed while it is also the file being rewritten: every record just relocated into it is deleted")
 		// the cleared chunk is the source
-		c.check(prog.MentionsField(info, cl.Expr, "store.GCState.Src"), R, f.Key+": Clear applies to chunks[gc.Src]", cl.Pos(), "chunks[gc.Src]", "Clear is applied to a chunk other than the current source")
+		ixe := chunkIndexOf(f, cl.Expr)
+		c.check(ixe != nil && prog.IsField(info, "store.GCState.Src")(prog.Unparen(ixe)), R, f.Key+": Clear applies to chunks[gc.Src]", cl.Pos(), "chunks[gc.Src]", "Clear is applied to a chunk other than the current source")
 	}
 }
 
